@@ -358,7 +358,7 @@ func (p *queryPlan) processClause(ctx context.Context, cls *semantic.GraphClause
 		})
 		// Data is new.
 		stmLimit := int64(0)
-		if len(p.stm.GraphPatternClauses()) == 1 && len(p.stm.GroupBy()) == 0 && len(p.stm.HavingExpression()) == 0 {
+		if len(p.stm.GraphPatternClauses()) == 1 && len(p.stm.GroupBy()) == 0 && len(p.stm.HavingExpression()) == 0 && len(p.stm.OrderByConfig()) == 0 {
 			stmLimit = p.stm.Limit()
 		}
 		tbl, err := simpleFetch(ctx, p.grfs, cls, lo, stmLimit, p.chanSize, p.tracer)
@@ -469,7 +469,7 @@ func (p *queryPlan) addSpecifiedData(ctx context.Context, r table.Row, cls *sema
 	})
 
 	stmLimit := int64(0)
-	if len(p.stm.GraphPatternClauses()) == 1 && len(p.stm.GroupBy()) == 0 && len(p.stm.HavingExpression()) == 0 {
+	if len(p.stm.GraphPatternClauses()) == 1 && len(p.stm.GroupBy()) == 0 && len(p.stm.HavingExpression()) == 0 && len(p.stm.OrderByConfig()) == 0 {
 		stmLimit = p.stm.Limit()
 	}
 	tbl, err := simpleFetch(ctx, p.grfs, cls, lo, stmLimit, p.chanSize, p.tracer)
